@@ -7,7 +7,7 @@ import ast
 from ..kinds import is_cart, is_frac, wrapped
 from ..source import norm_text
 from .C10 import check_moves
-from .geo import KIND_ERRORS, all_geos, geo_text, uniq_events
+from .geo import ALL_ERRORS as KIND_ERRORS, all_geos, geo_text, uniq_events
 
 MODULES = ('gemdat.transitions', 'gemdat.jumps', 'gemdat.collective', 'gemdat.rdf', 'gemdat.volume', 'gemdat.path',
            'gemdat.trajectory', 'gemdat.metrics')
@@ -41,7 +41,7 @@ def check(ctx):
             if e['tag'] in KIND_ERRORS and e['where'] is not None and in_scope(e['where']) and id(e['node']) not in seen:
                 seen.add(id(e['node']))
                 nerr += 1
-                rule = 'R2' if e['tag'] in ('wrapped_reduce', 'unreduced_diff') else 'R1'
+                rule = 'R2' if e['tag'] in ('wrapped_reduce', 'unreduced_diff', 'cw_to_cart') else 'R1'
                 extra = e.get('what')
                 ctx.ob(rule, e['where'], e['node'], False, KIND_ERRORS[e['tag']] + (f': {extra}' if extra else ''))
     ctx.ob('R1', 'gemdat', f'kind errors in {len(MODULES)} analysis modules', nerr == 0, 'no Euclidean operation on fractional values, no frame mix')
